@@ -191,6 +191,34 @@ fn build(e: &Value) -> Option<Built> {
     }
 }
 
+/// The p1 description of the same crystal with one occupied site per copy (Crystal!AsSites):
+/// the JSON of the one-site state of `shape` in p1, its site replicated once per placement.
+fn build_multi(e: &Value) -> Option<Built> {
+    let mut e1 = e.clone();
+    e1["g"] = json!("p1");
+    let one = build(&e1)?;
+    let mut j = match &one {
+        Built::Poly(s) => serde_json::to_value(s).ok()?,
+        Built::Mol(s) => serde_json::to_value(s).ok()?,
+    };
+    let d = gi(e, "D") as f64;
+    let proto = j["occupied_sites"][0].clone();
+    let mut sites = vec![];
+    for p in e["pl"].as_array()? {
+        let v: Vec<i64> = p.as_array()?.iter().map(|x| x.as_i64().unwrap_or(0)).collect();
+        let mut site = proto.clone();
+        site["x"] = json!(v[0] as f64 / d);
+        site["y"] = json!(v[1] as f64 / d);
+        site["angle"] = json!(norm_angle(v[2], v[4]));
+        sites.push(site);
+    }
+    j["occupied_sites"] = Value::Array(sites);
+    match one {
+        Built::Poly(_) => serde_json::from_value(j).ok().map(Built::Poly),
+        Built::Mol(_) => serde_json::from_value(j).ok().map(Built::Mol),
+    }
+}
+
 /// The same crystal description as an LJ state: placements must be the same (C04, C15 hold
 /// for hard and Lennard-Jones states alike).
 fn lj_placements(e: &Value) -> Option<(Vec<Matrix3<f64>>, Vec<Matrix3<f64>>)> {
@@ -302,6 +330,7 @@ pub fn crystal(input: &str, out: &str) {
     let mut critical = [0usize; 4];
     let mut lines = 0usize;
     let mut oracle_checked = 0usize;
+    let mut multi_lines = 0usize;
     let mut oracle_mismatch: Vec<Value> = vec![];
     for line in f.lines() {
         let line = line.unwrap();
@@ -457,8 +486,41 @@ pub fn crystal(input: &str, out: &str) {
                 .collect();
             c04.fail(&e, "cartesian placements differ from the symmetric model crystal", json!(obs));
         }
+        // ---- the same crystal described as a p1 state with one site per copy (Crystal!AsSites)
+        if gi(&e, "multi") == 1 && pl.len() > 1 {
+            multi_lines += 1;
+            let mo = catch_unwind(AssertUnwindSafe(|| build_multi(&e).map(|b| observe(&b))));
+            match mo {
+                Err(_) => c01.fail(&e, "p1 multi-site description: panic", json!(null)),
+                Ok(None) => c01.skipped += 1,
+                Ok(Some(m)) => {
+                    if verdict == "overlap" && m.score.is_some() {
+                        c01.fail(&e, "p1 multi-site description: scored although images overlap",
+                                 json!({"score": m.score}));
+                    }
+                    if verdict == "apart" && gs(&e, "unit") != "lens" {
+                        let k = if gs(&e, "unit") == "pi" { PI } else { 1. };
+                        let expect = k * gi(&e, "num") as f64 / gi(&e, "den") as f64;
+                        match m.score {
+                            Some(s) if close(s, expect, 1e-12) => {}
+                            other => c02.fail(&e, "p1 multi-site description: score differs from copies*area/cell area",
+                                              json!({"score": other, "expected": expect})),
+                        }
+                    }
+                    // site k of the p1 description: at Frac(k), turned by RotLin(k)
+                    let rot_rel: Vec<[f64; 6]> = exp_rel.iter().map(|r| [r[0], r[1], r[2], -r[4], r[4], r[2]]).collect();
+                    let rot_cart: Vec<[f64; 6]> = exp_cart.iter().map(|r| [r[0], r[1], r[2], -r[4], r[4], r[2]]).collect();
+                    if !same_placements(&m.rel, &rot_rel, 1e-12) {
+                        c15.fail(&e, "p1 multi-site description: relative placements differ", json!(null));
+                    }
+                    if !same_placements(&m.cart, &rot_cart, 1e-12 * scale) {
+                        c04.fail(&e, "p1 multi-site description: cartesian placements differ", json!(null));
+                    }
+                }
+            }
+        }
     }
-    let res = json!({"lines": lines, "oracle_checked": oracle_checked,
+    let res = json!({"lines": lines, "oracle_checked": oracle_checked, "multi_site_lines": multi_lines,
                      "oracle_mismatches": oracle_mismatch.len(),
                      "oracle_first_mismatches": oracle_mismatch.iter().take(5).collect::<Vec<_>>(),
                      "critical": {"k1": critical[1], "k2": critical[2], "k3": critical[3]},
